@@ -135,6 +135,31 @@ pub fn gen(seed: u64, idx: u64, tier: Tier) -> Case {
             model.predict(op);
         }
     }
+    // directory-growth workload (every tenth): a VERSION 4 directory grows past its first sector
+    // (32 entries), which - other than in version 3 - also rewrites the header's directory-sector
+    // count; streams created around and after that boundary are flushed (and so verified live and
+    // from the bytes reopened)
+    if idx % 10 == 3 {
+        c.version = 4;
+        let mut ops = vec![];
+        let nsto = rng.range(24, 28);
+        for i in 0..nsto {
+            ops.push(Op::CreateStorage(format!("/d{}", i)));
+        }
+        for i in 0..(36 - nsto) {
+            ops.push(Op::HCreate { h: 1, path: format!("/s{}", i) });
+            ops.push(Op::HWriteAll { h: 1, len: *rng.pick(&[40usize, 100, 700]), nonce: 200 + i as u32 });
+            ops.push(Op::HFlush { h: 1 });
+            ops.push(Op::HDrop { h: 1 });
+        }
+        ops.push(Op::FlushFile);
+        c.ops = ops;
+        c.params.insert("torn_seed".into(), (rng.next_u64() >> 2) as i64);
+        c.params.insert("slice".into(), slice as i64);
+        c.params.insert("nslices".into(), SLICES as i64);
+        c.params.insert("pair_every".into(), pair_every);
+        return c;
+    }
     // growth workload (every fifth): one handle writes a V3 stream across the first FAT-sector
     // boundary (128 sectors = 64 KB), small streams fill the MiniFAT past its first sector
     // (128 mini sectors), the big stream is cut back inside its chain and grown again - so that
@@ -263,13 +288,17 @@ struct RunOut {
     trace: u64,
     /// seam-call counter at the start and at the end of the FIRST retry of a failed call
     retry_span: Option<(u64, u64)>,
+    /// per op index: seam counter before / after its first attempt, and the number of
+    /// underlying flush() calls among them
+    spans: Vec<(u64, u64, u64)>,
+    carried_on: u64,
 }
 
 fn is_write_class(name: &str) -> bool {
     matches!(name, "F-WE" | "F-WT" | "F-SE" | "F-FE" | "F-DF")
 }
 
-fn execute(case: &Case, plan: &[Fault], heal_after_first_failure: bool) -> RunOut {
+fn execute(case: &Case, plan: &[Fault], heal_after_first_failure: bool, wb_end: &BTreeMap<usize, u64>) -> RunOut {
     let disk = SimDisk::with_plan(Vec::new(), plan.to_vec());
     // every third workload: the underlying file is a write-back cache; only what was written
     // before a successful flush() of the underlying file counts as "in the compound file"
@@ -283,7 +312,7 @@ fn execute(case: &Case, plan: &[Fault], heal_after_first_failure: bool) -> RunOu
     let mut drop_fault = false;
     let retry_set_len = case.param("retry_set_len", 1) == 1;
     let set_len_carry_on = case.param("set_len_carry_on", 0) == 1;
-    let mut out = RunOut { n_events: 0, violation: None, fired: Default::default(), verified_after_fault: 0, inconclusive: 0, trace: 0, retry_span: None };
+    let mut out = RunOut { n_events: 0, violation: None, fired: Default::default(), verified_after_fault: 0, inconclusive: 0, trace: 0, retry_span: None, spans: vec![(0, 0, 0); case.ops.len()], carried_on: 0 };
     crate::driver::set_clock(crate::ops::T { secs: 1_600_000_000, nanos: 0 });
     let fin = |out: &mut RunOut, disk: &SimDisk| {
         let d = disk.0.borrow();
@@ -375,7 +404,11 @@ fn execute(case: &Case, plan: &[Fault], heal_after_first_failure: bool) -> RunOu
                 }
             }
             let k_before = lib.disk.k();
+            let fl_before = lib.disk.0.borrow().seam_counts[crate::disk::Seam::Flush as usize];
             let got = lib.exec(op);
+            if tries == 1 {
+                out.spans[i] = (k_before, lib.disk.k(), lib.disk.0.borrow().seam_counts[crate::disk::Seam::Flush as usize] - fl_before);
+            }
             if tries == 2 && out.retry_span.is_none() {
                 out.retry_span = Some((k_before, lib.disk.k()));
             }
@@ -519,11 +552,15 @@ fn execute(case: &Case, plan: &[Fault], heal_after_first_failure: bool) -> RunOu
                     // a resize that failed half-way, e.g. after freeing the tail of the chain and before
                     // rewriting the entry, leaves the stream pointing at released space; nothing is
                     // promised about such an object and it is given up below like in the other workloads)
-                    let consistent = |lib: &Lib| {
-                        let p = crate::imgck::check(&lib.disk.snapshot());
-                        p.fatal.is_none() && !p.violations.iter().any(|v| v.rule != "R5.minifat-short")
-                    };
-                    if is_err && set_len_carry_on && !fired.is_empty() && hs[*h].as_ref().map(|st| st.content.is_some() && st.alt.is_none()).unwrap_or(false) && consistent(&lib) {
+                    // Only if the failure hit the FIRST stage of set_len - writing the handle's pending
+                    // bytes back - i.e. before the resize proper began: a resize that failed half-way
+                    // (chain released or re-used before the entry was rewritten) may leave the stream
+                    // with any content; nothing is promised about such an object and it is given up
+                    // below as in the other workloads.  The end of the write-back stage (a seam index)
+                    // is measured in fault-free probe runs (see run()).
+                    let in_write_back = tries == 1 && fired.len() == 1 && wb_end.get(&i).map(|e| fired[0].0 <= *e).unwrap_or(false);
+                    if is_err && set_len_carry_on && in_write_back && hs[*h].as_ref().map(|st| st.content.is_some() && st.alt.is_none()).unwrap_or(false) {
+                        out.carried_on += 1;
                         // not retried: what the handle's writes accepted is still owed by the next
                         // Ok flush, with the old or the new length (nothing promises that a failed
                         // call is atomic); the byte-level image rules stand down for this run
@@ -810,6 +847,59 @@ fn execute(case: &Case, plan: &[Fault], heal_after_first_failure: bool) -> RunOu
             }
         }
     }
+    // ... and the same from the BYTES: everything verified and untouched must be in the compound
+    // file as it stands at the end (the per-flush reopen above looks only at the first verified
+    // flush after each fault; objects created LATER on top of a structure that a retried call left
+    // wrong in the file only - e.g. a directory sector linked twice - are seen here)
+    let any_fault: u64 = lib.disk.0.borrow().fired.values().sum();
+    if out.violation.is_none() && unrecovered == 0 && tainted.is_empty() && !drop_fault && !torn_fired && any_fault > 0 && !known.is_empty() {
+        let live: Vec<String> = hs.iter().flatten().map(|st| st.path.clone()).collect();
+        let bytes = if durable_mode { lib.disk.0.borrow().durable.clone().unwrap_or_default() } else { lib.disk.snapshot() };
+        let what = if durable_mode { "the bytes made durable by the underlying file's last successful flush" } else { "the underlying bytes" };
+        match Lib::open(SimDisk::new(bytes), false, case.bufsize) {
+            Err(r) => {
+                out.violation = Some((
+                    "image-unreadable-at-end".into(),
+                    "audit".into(),
+                    format!("every failed call of this run was retried successfully and every flush returned Ok, but at the end {} no longer open: {}", what, r.brief()),
+                    case.ops.len(),
+                ));
+            }
+            Ok(mut l2) => {
+                l2.budget_base = 400_000;
+                for (path, want) in known.iter() {
+                    if live.iter().any(|l| l.eq_ignore_ascii_case(path)) {
+                        continue;
+                    }
+                    match l2.exec(&Op::ReadWhole(path.clone())) {
+                        Res::Bytes(b) if &b == want => {}
+                        Res::Bytes(b) => {
+                            let first = b.iter().zip(want.iter()).position(|(x, y)| x != y);
+                            out.violation = Some((
+                                "not-in-file-at-end".into(),
+                                "audit".into(),
+                                format!("{:?} was verified after an Ok flush and not touched since, the live object still reads it back, but {} reopened at the end hold {} bytes for it instead of {} (first mismatch at {:?})", path, what, b.len(), want.len(), first),
+                                case.ops.len(),
+                            ));
+                            break;
+                        }
+                        Res::Err(..) => {
+                            let r = l2.exec(&Op::ReadWhole(path.clone()));
+                            out.violation = Some((
+                                "unreadable-in-file-at-end".into(),
+                                "audit".into(),
+                                format!("{:?} was verified after an Ok flush and not touched since, the live object still reads it back and every failed call was retried successfully, but in {} reopened at the end it cannot be read: {}", path, what, r.brief()),
+                                case.ops.len(),
+                            ));
+                            break;
+                        }
+                        _ => out.inconclusive += 1,
+                    }
+                }
+                l2.close();
+            }
+        }
+    }
     lib.close();
     fin(&mut out, &disk);
     out
@@ -824,7 +914,8 @@ pub fn run(case: &Case, _known: &BTreeSet<String>) -> Outcome {
         o.replay_case = Some(rc);
         o.violations.push(Violation { property: "C13".into(), rule: v.0, site: v.1, msg: format!("faults {:?}: {}", plan, v.2), step: v.3 });
     };
-    let r0 = execute(case, &[], false);
+    let none: BTreeMap<usize, u64> = BTreeMap::new();
+    let r0 = execute(case, &[], false, &none);
     o.stats.sub_runs += 1;
     o.stats.seam_events += r0.n_events;
     if r0.violation.is_some() {
@@ -833,12 +924,35 @@ pub fn run(case: &Case, _known: &BTreeSet<String>) -> Outcome {
         return o;
     }
     let n = r0.n_events;
+    // workloads that carry on after a failed set_len: where does the write-back stage of each
+    // set_len end?  One fault-free probe run per set_len, with an explicit flush() on the same
+    // handle inserted in front of it: the seam calls of that flush, minus the underlying file's
+    // flush() itself, are exactly the write-back the set_len would have begun with.
+    let mut wb_end: BTreeMap<usize, u64> = BTreeMap::new();
+    if case.param("set_len_carry_on", 0) == 1 {
+        for (i, op) in case.ops.iter().enumerate() {
+            if let Op::HSetLen { h, .. } = op {
+                let mut probe = case.clone();
+                probe.ops.insert(i, Op::HFlush { h: *h });
+                let rp = execute(&probe, &[], false, &none);
+                o.stats.sub_runs += 1;
+                if rp.violation.is_none() && rp.spans.len() > i && r0.spans[i].1 > r0.spans[i].0 {
+                    let (a, b, fl) = rp.spans[i];
+                    if a == r0.spans[i].0 {
+                        wb_end.insert(i, a + (b - a).saturating_sub(fl));
+                    }
+                }
+            }
+        }
+    }
     let mut traces: BTreeSet<u64> = BTreeSet::new();
     let mut verified = 0u64;
+    let mut carried_on = 0u64;
     let last_span: std::cell::Cell<Option<(u64, u64)>> = std::cell::Cell::new(None);
     let mut pair_runs = 0u64;
     let mut run_plan = |o: &mut Outcome, plan: Vec<Fault>, heal: bool| -> bool {
-        let r = execute(case, &plan, heal);
+        let r = execute(case, &plan, heal, &wb_end);
+        carried_on += r.carried_on;
         last_span.set(r.retry_span);
         o.stats.sub_runs += 1;
         o.stats.seam_events += r.n_events;
@@ -907,6 +1021,9 @@ pub fn run(case: &Case, _known: &BTreeSet<String>) -> Outcome {
     o.stats.probe_n("flushes_verified_after_fault", verified);
     o.stats.probe_n("workload_seam_calls", n);
     o.stats.probe_n("second_fault_inside_retry_runs", pair_runs);
+    if case.param("set_len_carry_on", 0) == 1 {
+        o.stats.probe_n("carried_on_after_failed_set_len", carried_on);
+    }
     let _ = Whence::Start;
     o
 }
